@@ -60,7 +60,12 @@ def spectral_clustering(H, k=2, max_iter=1_000, seed=None):
     # The eigensolver's start vector is drawn from the seed; left to itself,
     # eigsh draws it from fresh entropy and the clusters differ between calls.
     v0 = np.random.default_rng(seed).uniform(-1, 1, L.shape[0])
-    evals, eigs = eigsh(L, k=k, which="SA", v0=v0)
+    try:
+        # newer SciPy versions restart ARPACK (e.g., on a repeated eigenvalue)
+        # with vectors drawn from `rng`, fresh entropy by default: seed that too
+        evals, eigs = eigsh(L, k=k, which="SA", v0=v0, rng=seed)
+    except TypeError:  # older SciPy: eigsh has no `rng` argument
+        evals, eigs = eigsh(L, k=k, which="SA", v0=v0)
 
     # Form metric space representation
     X = np.array(eigs)
